@@ -14,6 +14,26 @@ import (
 
 var badInts = []pdfw.Obj{0, -1, 2147483648, 9223372036854775807, pdfw.Raw("1" + strings.Repeat("0", 400)), 1000000, -2147483649}
 
+var words16 = []uint16{0xFFFF, 0x0000, 0x8000, 0x7FFF}
+
+const numWords32 = 6
+
+func word32(v int, n int) uint32 {
+	switch v {
+	case 0:
+		return 0xFFFFFFFF
+	case 1:
+		return 0x80000000
+	case 2:
+		return 0x7FFFFFFF
+	case 3:
+		return uint32(n)
+	case 4:
+		return uint32(n - 1)
+	}
+	return 0xFFFFFFF0
+}
+
 type recorded struct {
 	num  int
 	kind string
@@ -51,6 +71,20 @@ func EnumPDFFields(spec pdfw.DocSpec) []Fault {
 			// applied before encoding so that it survives any filter chain
 			data := rc.obj.(pdfw.Str).B
 			if !looksLikeText(data) {
+				// binary payload (an embedded font program): every 16-bit and 32-bit big-endian
+				// word replaced by the values at which offset / length arithmetic goes wrong
+				if len(data) > 0 && len(data) <= 1024 {
+					for off := 0; off+2 <= len(data); off += 2 {
+						for v := 0; v < len(words16); v++ {
+							out = append(out, Fault{Layer: "pdfobj", Kind: "stream-word16", A: int64(rc.num), B: int64(off)<<8 | int64(v)})
+						}
+						if off%4 == 0 && off+4 <= len(data) {
+							for v := 0; v < numWords32; v++ {
+								out = append(out, Fault{Layer: "pdfobj", Kind: "stream-word32", A: int64(rc.num), B: int64(off)<<8 | int64(v)})
+							}
+						}
+					}
+				}
 				break
 			}
 			for _, tf := range EnumPDFTokens(data) {
@@ -400,6 +434,20 @@ func ApplyPDFFields(spec pdfw.DocSpec, fs []Fault) []byte {
 			case f.Kind == "stream-text" && kind == "plain":
 				s := o.(pdfw.Str)
 				o = pdfw.Str{B: ApplyBytes(s.B, Fault{Kind: "replace", A: f.B >> 20, B: f.B & 0xFFFFF, S: f.S})}
+			case f.Kind == "stream-word16" && kind == "plain":
+				b := append([]byte{}, o.(pdfw.Str).B...)
+				if off := int(f.B >> 8); off+2 <= len(b) {
+					w := words16[int(f.B&0xff)%len(words16)]
+					b[off], b[off+1] = byte(w>>8), byte(w)
+				}
+				o = pdfw.Str{B: b}
+			case f.Kind == "stream-word32" && kind == "plain":
+				b := append([]byte{}, o.(pdfw.Str).B...)
+				if off := int(f.B >> 8); off+4 <= len(b) {
+					w := word32(int(f.B&0xff), len(b))
+					b[off], b[off+1], b[off+2], b[off+3] = byte(w>>24), byte(w>>16), byte(w>>8), byte(w)
+				}
+				o = pdfw.Str{B: b}
 			case f.Kind == "field-ref" && kind == "obj":
 				steps := strings.Split(strings.TrimPrefix(f.S, "/"), "/")
 				no, _ := replaceAt(o, steps, pdfw.Ref{Num: int(f.B)})
